@@ -2,6 +2,7 @@ package gen
 
 import (
 	"fmt"
+	"strings"
 
 	"github.com/google/uuid"
 	"github.com/semafind/semadb/models"
@@ -134,21 +135,19 @@ func genIndexedValue(t *rapid.T, label string, sv models.IndexSchemaValue) any {
 	panic("gen: unknown index type " + sv.Type)
 }
 
-// setPath sets a (possibly dotted, one level) path in a document.
+// setPath sets a (possibly dotted) path in a document, creating the maps on the way.
 func setPath(d model.Doc, path string, v any) {
-	for i := 0; i < len(path); i++ {
-		if path[i] == '.' {
-			parent, field := path[:i], path[i+1:]
-			m, ok := d[parent].(map[string]any)
-			if !ok {
-				m = map[string]any{}
-				d[parent] = m
-			}
-			m[field] = v
-			return
+	parts := strings.Split(path, ".")
+	var m map[string]any = d
+	for _, part := range parts[:len(parts)-1] {
+		next, ok := m[part].(map[string]any)
+		if !ok {
+			next = map[string]any{}
+			m[part] = next
 		}
+		m = next
 	}
-	d[path] = v
+	m[parts[len(parts)-1]] = v
 }
 
 // GenDoc draws a full document for an insert.
@@ -180,37 +179,39 @@ func GenDoc(t *rapid.T, label string, schema models.IndexSchema, o HistoryOpts) 
 // replace the nested parent map, or nothing at all.
 func GenUpdateDoc(t *rapid.T, label string, schema models.IndexSchema, o HistoryOpts) model.Doc {
 	d := model.Doc{}
-	nestedParentDone := false
+	// a top-level map that holds nested indexed properties is replaced as a whole by an update (the merge
+	// is shallow): once it is in the update, further nested properties are set inside it
+	nestedParentDone := map[string]bool{}
 	for _, p := range SortedProps(schema) {
 		parent := ""
-		for i := 0; i < len(p); i++ {
-			if p[i] == '.' {
-				parent = p[:i]
-			}
+		if i := strings.IndexByte(p, '.'); i >= 0 {
+			parent = p[:i]
 		}
 		switch rapid.IntRange(0, 5).Draw(t, label+"-u-"+p) {
 		case 0, 1: // set / change
-			if parent != "" && nestedParentDone {
-				// the parent map is replaced as a whole: set both nested fields consistently
-				setPath(d, p, genIndexedValue(t, label+"-"+p, schema[p]))
-			} else {
-				setPath(d, p, genIndexedValue(t, label+"-"+p, schema[p]))
+			if parent != "" && d[parent] == model.DeleteValue {
+				break
 			}
+			setPath(d, p, genIndexedValue(t, label+"-"+p, schema[p]))
 			if parent != "" {
-				nestedParentDone = true
+				nestedParentDone[parent] = true
 			}
 		case 2: // remove
 			if parent != "" {
-				if !nestedParentDone {
-					switch rapid.IntRange(0, 2).Draw(t, label+"-rmnested-"+p) {
+				if !nestedParentDone[parent] {
+					switch rapid.IntRange(0, 3).Draw(t, label+"-rmnested-"+p) {
 					case 0:
 						d[parent] = model.DeleteValue
 					case 1:
 						d[parent] = map[string]any{} // replaced by an empty map: nested fields vanish
-					default:
+					case 2:
 						d[parent] = map[string]any{"other": int64(1)}
+					default:
+						// the maps on the way stay, the last one is empty
+						parts := strings.Split(p, ".")
+						setPath(d, strings.Join(parts[:len(parts)-1], ".")+".other", int64(2))
 					}
-					nestedParentDone = true
+					nestedParentDone[parent] = true
 				}
 			} else {
 				d[p] = model.DeleteValue
